@@ -491,6 +491,8 @@ func (im *impl) setupReal() {
 	yp := params.Versions[params.YouCurrentVersion]
 	yp.EnableBls = false
 	yp.ValidatorThreshold = h.Env.ValThr
+	yp.CertValThreshold = h.Env.ValThr
+	params.Versions[params.YouCurrentVersion] = yp // getLookbackStakeInfo reads CertValThreshold from the table
 	im.pm.yp = yp
 	im.pm.lbv = im.reader
 	cd := &ucon.BlockConsensusData{Round: big.NewInt(1), RoundIndex: 1, Seed: im.seed, SortitionProof: []byte{1}, Priority: common.Hash{1},
@@ -507,14 +509,40 @@ func (im *impl) setupReal() {
 }
 
 // sortition of key j for (index, vote type) under the case's seed/threshold/stakes
-func (im *impl) sortition(j int, idx uint32, t int) ([]byte, uint32) {
+type sortKey struct {
+	tag, thr uint64
+	stakes   string
+	j        int
+	idx      uint32
+	t        int
+}
+type sortVal struct {
+	proof []byte
+	sub   uint32
+}
+
+var sortMemo = map[sortKey]sortVal{}
+
+func realSortition(h *History, j int, idx uint32, t int) ([]byte, uint32) {
+	k := sortKey{h.Env.SeedTag, h.Env.ValThr, fmt.Sprint(h.Env.Stakes), j, idx, t}
+	if v, ok := sortMemo[k]; ok {
+		return v.proof, v.sub
+	}
 	sk, err := secp256k1VRF.NewVRFSigner(keys[j])
 	if err != nil {
 		panic(err)
 	}
-	total := im.reader.stat.GetStakeByKind(params.KindChamber)
-	_, proof, sub := ucon.VrfSortition(sk, im.seed, idx, uint32(vtypes[t]), im.h.Env.ValThr, new(big.Int).SetUint64(im.h.Env.Stakes[j]), total)
+	var total uint64
+	for _, s := range h.Env.Stakes {
+		total += s
+	}
+	seed := crypto.Keccak256Hash([]byte(fmt.Sprintf("verif-c03-seed-%d", h.Env.SeedTag)))
+	_, proof, sub := ucon.VrfSortition(sk, seed, idx, uint32(vtypes[t]), h.Env.ValThr, new(big.Int).SetUint64(h.Env.Stakes[j]), new(big.Int).SetUint64(total))
+	sortMemo[k] = sortVal{proof, sub}
 	return proof, sub
+}
+func (im *impl) sortition(j int, idx uint32, t int) ([]byte, uint32) {
+	return realSortition(im.h, j, idx, t)
 }
 func (im *impl) proof(j int, idx uint32, t int) []byte {
 	p, _ := im.sortition(j, idx, t)
@@ -528,6 +556,8 @@ type Obs struct {
 	Events []Event `json:"events"`
 	Latch  [7]int  `json:"latch"`
 	Count  uint32  `json:"count"`
+
+	recorded bool // the message's sender has a vote recorded in the message's tally (oracle only)
 }
 
 func optHash(h *common.Hash) int {
@@ -551,7 +581,8 @@ func (im *impl) buildMsg(m *MsgOp) (*ucon.BlockHashWithVotes, common.Address) {
 	}
 	vote := &ucon.SingleVote{Votes: m.Votes, Proof: []byte{byte(m.Cred)}}
 	if im.h.Env.Real {
-		if m.Cred == 3 {
+		if m.Cred == 3 || (m.Votes%2 == 1 && m.Sender < len(im.h.Env.Stakes)) {
+			// a real proof; with Cred 2 the claimed seat count is not the sortition's
 			vote.Proof = im.proof(m.Sender, m.I, m.T)
 		} else {
 			vote.Proof = []byte{1, 2, 3}
@@ -618,6 +649,7 @@ func (im *impl) apply(o *Op) Obs {
 	if o.K == "msg" && o.M.StakeOk {
 		c, _ := ucon.VerifC03Count(im.v, new(big.Int).SetUint64(o.M.R), o.M.I, vtypes[o.M.T], kinds[o.M.Kind], hashes[o.M.H])
 		ob.Count = c
+		ob.recorded = ucon.VerifC03Recorded(im.v, new(big.Int).SetUint64(o.M.R), o.M.I, vtypes[o.M.T], kinds[o.M.Kind], addrs[o.M.Sender])
 	}
 	return ob
 }
@@ -640,6 +672,7 @@ type tkey struct {
 type first struct {
 	h     int
 	seats uint32
+	valid bool // the credential is valid for a verifier with the same look-back set
 }
 type tally struct {
 	first map[int]first // sender -> first accepted vote
@@ -656,6 +689,17 @@ func (t *tally) weight(h int) uint64 {
 	return w
 }
 
+// validWeight leaves out votes whose credential is invalid
+func (t *tally) validWeight(h int) uint64 {
+	var w uint64
+	for s, f := range t.first {
+		if f.h == h && !t.equiv[s] && f.valid {
+			w += uint64(f.seats)
+		}
+	}
+	return w
+}
+
 type oracle struct {
 	h       *History
 	im      *impl
@@ -666,15 +710,17 @@ type oracle struct {
 	ring    [][2]uint64
 	tallies map[tkey]*tally
 	reached map[string]bool
+	reachedValid map[string]bool
 	srvR    uint64
 	srvI    uint32
 	hits    []string
 	// what a verifier with the same look-back set accepts as credential: (sender, index, type) -> seats
 	stale bool // some counted vote carried an invalid VRF credential (finding class, real mode)
+	realVerified int
 }
 
 func newOracle(h *History, im *impl) *oracle {
-	return &oracle{h: h, im: im, tallies: map[tkey]*tally{}, reached: map[string]bool{}}
+	return &oracle{h: h, im: im, tallies: map[tkey]*tally{}, reached: map[string]bool{}, reachedValid: map[string]bool{}}
 }
 
 func (o *oracle) tal(k tkey) *tally {
@@ -702,6 +748,9 @@ func (o *oracle) note(k tkey, h int, thr uint64) {
 	if o.tal(k).weight(h) >= uint64(goQuorum(thr, k.t != 3)) {
 		o.reached[rkey(k.r, k.i, k.t, h)] = true
 	}
+	if o.tal(k).validWeight(h) >= uint64(goQuorum(thr, k.t != 3)) {
+		o.reachedValid[rkey(k.r, k.i, k.t, h)] = true
+	}
 }
 
 // credTruth: would a verifier with the same look-back accept this credential?
@@ -720,6 +769,11 @@ func (o *oracle) credSeen(m *MsgOp) bool {
 }
 
 func (o *oracle) hit(what string) { o.hits = append(o.hits, what) }
+
+// wasCounted: is the sender recorded in the message's tally after the op?
+func (o *oracle) wasCounted(m *MsgOp, ob *Obs) bool {
+	return m.Kind != 2 && ob.recorded
+}
 
 // before is called before the implementation runs the op (it uses only the op
 // and earlier observations); after is called with the op's observations.
@@ -748,6 +802,12 @@ func (o *oracle) step(op *Op, ob *Obs) {
 	case "msg":
 		m := op.M
 		accepted := !m.NoVote && m.Sig == 0 && m.StakeOk && o.credSeen(m) && !(m.T == 3 && !o.h.Env.CertpOk)
+		if accepted && m.Cred == 2 {
+			// an invalid credential of a stale message: the code as it is counts it
+			// (listed finding); a repaired verifySortition drops it.  Read off the
+			// observation which of the two happened.
+			accepted = ob.Ret == 0 && o.wasCounted(m, ob)
+		}
 		if accepted {
 			switch m.Status {
 			case 2:
@@ -763,7 +823,7 @@ func (o *oracle) step(op *Op, ob *Obs) {
 			k := tkey{m.R, m.I, m.T + 10*m.Kind}
 			t := o.tal(k)
 			if f, ok := t.first[m.Sender]; !ok {
-				t.first[m.Sender] = first{m.H, m.Votes}
+				t.first[m.Sender] = first{m.H, m.Votes, o.credTruth(m)}
 				if !o.credTruth(m) {
 					o.stale = true
 				}
@@ -790,7 +850,7 @@ func (o *oracle) step(op *Op, ob *Obs) {
 				k := tkey{e.R, e.I, e.T + 10*ov.Kind}
 				t := o.tal(k)
 				if _, ok := t.first[0]; !ok {
-					t.first[0] = first{e.H, e.N}
+					t.first[0] = first{e.H, e.N, true}
 				}
 				if ov.Kind == 0 {
 					o.note(tkey{e.R, e.I, e.T}, e.H, ov.Thr)
@@ -810,16 +870,23 @@ func (o *oracle) step(op *Op, ob *Obs) {
 					}
 				}
 				w := o.tal(tkey{e.R, e.I, 0}).weight(e.H)
+				wv := o.tal(tkey{e.R, e.I, 0}).validWeight(e.H)
 				if !ok || w < uint64(goQuorum(thr, true)) {
 					o.hit(fmt.Sprintf("precommit_without_quorum: precommit for block %d at (%d,%d) with counted prevote seats %d < quorum %d of threshold %d", e.H, e.R, e.I, w, goQuorum(thr, true), thr))
+				} else if wv < uint64(goQuorum(thr, true)) {
+					o.hit(fmt.Sprintf("stale_credential_accepted: precommit for block %d at (%d,%d): counted prevote seats %d reach the quorum %d only with votes whose VRF credential is invalid (valid seats %d); Server.verifySortition accepted them because the server was already at (%d,%d)", e.H, e.R, e.I, w, goQuorum(thr, true), wv, o.srvR, o.srvI))
 				}
 			}
 		case "commit":
 			if !o.reached[rkey(e.R, e.I, 1, e.H)] {
 				o.hit(fmt.Sprintf("commit_without_precommit_quorum: commit of block %d at (%d,%d) but precommits for it never reached their quorum", e.H, e.R, e.I))
+			} else if !o.reachedValid[rkey(e.R, e.I, 1, e.H)] {
+				o.hit(fmt.Sprintf("stale_credential_accepted: commit of block %d at (%d,%d): the precommit quorum was reached only with votes whose VRF credential is invalid", e.H, e.R, e.I))
 			}
 			if o.cert && !o.reached[rkey(e.R, e.I, 3, e.H)] {
 				o.hit(fmt.Sprintf("commit_without_certificate_quorum: commit of block %d at (%d,%d) in a certificate round but certificate votes never reached their quorum", e.H, e.R, e.I))
+			} else if o.cert && !o.reachedValid[rkey(e.R, e.I, 3, e.H)] {
+				o.hit(fmt.Sprintf("stale_credential_accepted: commit of block %d at (%d,%d): the certificate quorum was reached only with votes whose VRF credential is invalid", e.H, e.R, e.I))
 			}
 			o.checkCommitSets(&e)
 			o.verifyCommit(&e)
@@ -872,7 +939,18 @@ func (o *oracle) verifyCommit(e *Event) {
 		return false
 	}
 	class := "commit_not_verifiable"
-	if o.cert && o.reached[rkey(e.R, e.I, 1, e.H)] && o.reached[rkey(e.R, e.I, 3, e.H)] && (lost(1) || lost(3)) {
+	hasInvalid := func(t int) bool {
+		tl := o.tal(tkey{e.R, e.I, t})
+		for s, f := range tl.first {
+			if f.h == e.H && !tl.equiv[s] && !f.valid {
+				return true
+			}
+		}
+		return false
+	}
+	if hasInvalid(1) || (o.cert && hasInvalid(3)) {
+		class = "stale_credential_accepted"
+	} else if o.cert && o.reached[rkey(e.R, e.I, 1, e.H)] && o.reached[rkey(e.R, e.I, 3, e.H)] && (lost(1) || lost(3)) {
 		class = "latched_quorum_decayed"
 	}
 	if got := o.recount(uv.ChamberCommitters, ev, 1); got < uint64(goQuorum(thrP, true)) {
@@ -890,12 +968,17 @@ func (o *oracle) verifyCommit(e *Event) {
 			o.hit(fmt.Sprintf(class+": certificate set packed for block %d at (%d,%d) re-counts to %d < quorum %d", e.H, e.R, e.I, got, goQuorum(thrC, false)))
 		}
 	}
-	if o.h.Env.Real && !decayed {
-		// the real verifier's vote check with the same look-back set
+	if o.h.Env.Real {
+		// the real verifier's vote check with the same look-back set; it must agree
+		// with the re-count above
 		err := ucon.VerifC03VerifyVotes(o.im.srv, o.im.pm.CurrentCaravelParams(), o.im.reader, ev.Block.Hash().Bytes(), o.im.seed,
 			ev.Round, uv.RoundIndex, o.h.Env.ValThr, uv.ChamberCommitters, uv.SCAggrSig, uint32(ucon.Precommit), params.KindChamber, true)
-		if err != nil {
+		o.realVerified++
+		if err != nil && !decayed {
 			o.hit(fmt.Sprintf("commit_rejected_by_verifier: Server.verifyVotes rejects the precommit set packed for block %d at (%d,%d): %v", e.H, e.R, e.I, err))
+		}
+		if err == nil && decayed && !certRound {
+			o.hit(fmt.Sprintf("verifier_accepts_short_set: Server.verifyVotes accepts a precommit set for block %d at (%d,%d) that re-counts below the quorum", e.H, e.R, e.I))
 		}
 	}
 }
@@ -1024,9 +1107,10 @@ func obsCoq(ob *Obs) string {
 // ---- run + check one history --------------------------------------------------------
 
 type runResult struct {
-	obs   []Obs
-	hits  []string
-	stale bool
+	obs          []Obs
+	hits         []string
+	stale        bool
+	realVerified int
 }
 
 func runHistory(h *History) runResult {
@@ -1041,12 +1125,39 @@ func runHistory(h *History) runResult {
 	}
 	res.hits = or.hits
 	res.stale = or.stale
+	res.realVerified = or.realVerified
 	return res
 }
 
 // normalize makes a (possibly hand-written) history well-formed for the harness:
 // the cases the implementation would panic on are outside the model.
 func normalize(h *History) {
+	if h.Env.Real {
+		h.Env.CertpOk = true
+		if len(h.Env.Stakes) == 0 {
+			h.Env.Stakes = []uint64{10}
+		}
+		if len(h.Env.Stakes) > nKeys {
+			h.Env.Stakes = h.Env.Stakes[:nKeys]
+		}
+		for k := range h.Env.Stakes {
+			if h.Env.Stakes[k] == 0 || h.Env.Stakes[k] > 100000 {
+				h.Env.Stakes[k] = 1 + h.Env.Stakes[k]%1000
+			}
+		}
+		if h.Env.ValThr == 0 {
+			h.Env.ValThr = 1
+		}
+		// the voter's own step views are what its sortition gives
+		var own []OwnView
+		for _, o := range h.Env.Own {
+			_, sub := realSortition(h, 0, o.I, o.T)
+			if sub > 0 {
+				own = append(own, OwnView{R: o.R, I: o.I, T: o.T, Seats: sub, Thr: h.Env.ValThr, Kind: 0})
+			}
+		}
+		h.Env.Own = own
+	}
 	seenCtx := false
 	var out []Op
 	for _, o := range h.Ops {
@@ -1076,6 +1187,17 @@ func normalize(h *History) {
 				o.M.Kind = 0
 				if o.M.Cred < 2 {
 					o.M.Cred += 2
+				}
+				if o.M.StakeOk {
+					_, sub := realSortition(h, o.M.Sender, o.M.I, o.M.T)
+					if o.M.Cred == 3 && (sub == 0 || sub != o.M.Votes) {
+						o.M.Cred = 2
+					}
+					if o.M.Cred == 2 && sub > 0 && sub == o.M.Votes && sub%2 == 1 {
+						o.M.Cred = 3 // a real proof with the right seat count is valid
+					}
+				} else {
+					o.M.Cred = 2 // never reached: the stake look-up fails first
 				}
 			}
 		case "cache":
@@ -1532,6 +1654,127 @@ func genFlow(r *vf.Rng) History {
 	return h
 }
 
+// real mode: a fake chain and validator set, real VRF credentials, the real
+// Server.verifySortition / getLookbackStakeInfo behind the voter and the real
+// Server.verifyVotes on every commit
+func genReal(r *vf.Rng) History {
+	h := History{Consistent: true}
+	h.Env.Real, h.Env.CertpOk, h.Env.EvidOn = true, true, r.Chance(50)
+	n := 3 + r.Intn(7)
+	for j := 0; j <= n; j++ {
+		h.Env.Stakes = append(h.Env.Stakes, uint64(5+r.Intn(200)))
+	}
+	h.Env.ValThr = uint64(3 + r.Intn(40))
+	h.Env.SeedTag = uint64(r.Intn(1 << 20))
+	cert := r.Chance(40)
+	round := uint64(11 + r.Intn(5))
+	if cert {
+		round = 32768 * uint64(1+r.Intn(2))
+	}
+	idx := uint32(1 + r.Intn(3))
+	lead := 1 + r.Intn(nBlocks)
+	other := 1 + (lead % nBlocks)
+	for t := 0; t < 4; t++ {
+		if r.Chance(85) {
+			h.Env.Own = append(h.Env.Own, OwnView{R: round, I: idx, T: t})
+		}
+	}
+	q := goQuorum(h.Env.ValThr, true)
+	add := func(o Op) { h.Ops = append(h.Ops, o) }
+	vote := func(t, sender, hash int, valid bool) {
+		_, sub := realSortition(&h, sender, idx, t)
+		m := &MsgOp{Status: 2, T: t, R: round, I: idx, H: hash, P: 1, Sender: sender, StakeOk: true, Kind: 0, Cred: 3, Votes: sub, Thr: h.Env.ValThr}
+		if !valid {
+			m.Cred = 2
+			m.Votes = q + uint32(r.Intn(4))
+			if r.Chance(30) {
+				m.Votes = sub + 1 + uint32(r.Intn(3))
+			}
+		}
+		if r.Chance(3) {
+			m.Sig = 1 + r.Intn(3)
+		}
+		if r.Chance(3) {
+			m.Sender = n + 1 + r.Intn(2) // not in the validator set: the stake look-up fails
+			if m.Sender >= nKeys {
+				m.Sender = nKeys - 1
+			}
+		}
+		add(Op{K: "msg", M: m})
+	}
+	add(Op{K: "cache", H: lead, Present: true})
+	if r.Chance(40) {
+		add(Op{K: "cache", H: other, Present: true})
+	}
+	srvI := idx
+	add(Op{K: "srv", R: round, I: srvI})
+	add(Op{K: "ctx", R: round, I: idx, Step: 0, Cert: cert})
+	add(Op{K: "ctx", R: round, I: idx, Step: 2, Cert: cert, MaxP: &[2]int{1, lead}})
+	phases := []int{0, 1}
+	if cert {
+		phases = append(phases, 3)
+	}
+	staleAt := -1
+	if r.Chance(45) {
+		staleAt = r.Intn(len(phases))
+	}
+	equivAt := -1
+	if r.Chance(30) {
+		equivAt = r.Intn(len(phases))
+	}
+	for pi, t := range phases {
+		if t == 1 {
+			add(Op{K: "ctx", R: round, I: idx, Step: 4, Cert: cert})
+		}
+		if t == 3 && r.Chance(60) {
+			add(Op{K: "ctx", R: round, I: idx, Step: 5, Cert: cert})
+		}
+		ord := make([]int, n)
+		for i := range ord {
+			ord[i] = i + 1
+		}
+		for i := n - 1; i > 0; i-- {
+			j := r.Intn(i + 1)
+			ord[i], ord[j] = ord[j], ord[i]
+		}
+		for k, sd := range ord {
+			if r.Chance(10) {
+				continue
+			}
+			if pi == staleAt && k == 0 {
+				// the server has already moved on (its ContextChangeEvent has not reached
+				// the voter yet): an invalid credential passes Server.verifySortition
+				if r.Chance(70) {
+					srvI = idx + 1
+					add(Op{K: "srv", R: round, I: srvI})
+				} else {
+					add(Op{K: "srv", R: round + 1, I: 1})
+				}
+				vote(t, sd, lead, false)
+				if r.Chance(50) {
+					add(Op{K: "srv", R: round, I: idx})
+				}
+				continue
+			}
+			if r.Chance(6) {
+				vote(t, sd, lead, false) // an invalid credential while the server is not ahead: rejected
+				continue
+			}
+			vote(t, sd, lead, true)
+			if r.Chance(8) {
+				vote(t, sd, lead, true)
+			}
+			if pi == equivAt && k == n/2 {
+				vote(phases[r.Intn(pi+1)], ord[r.Intn(k+1)], other, true)
+			}
+		}
+	}
+	add(Op{K: "ctx", R: round, I: idx, Step: 4, Cert: cert})
+	add(Op{K: "srv", R: round, I: idx + 1})
+	add(Op{K: "ctx", R: round, I: idx + 1, Step: 0, Cert: cert})
+	return h
+}
+
 func loadCorpus(dir string) []History {
 	var out []History
 	files, _ := filepath.Glob(filepath.Join(dir, "*.json"))
@@ -1574,6 +1817,8 @@ func gen(seed uint64, n int, outDir, corpusDir string) {
 		switch {
 		case r.Chance(30):
 			hs = append(hs, genFlow(r))
+		case r.Chance(25):
+			hs = append(hs, genReal(r))
 		default:
 			hs = append(hs, genHistory(r))
 		}
@@ -1586,6 +1831,12 @@ func gen(seed uint64, n int, outDir, corpusDir string) {
 		rr := runHistory(h)
 		for _, w := range rr.hits {
 			res.OracleHits = append(res.OracleHits, hit{whatKey(w), w, *h})
+		}
+		if h.Env.Real {
+			res.Count("case_real")
+			res.Distribution["real_verifyVotes_calls"] += rr.realVerified
+		} else {
+			res.Count("case_stub")
 		}
 		var ops, obs []string
 		nontrivial := false
